@@ -424,6 +424,11 @@ impl Session {
                     // Number of LinkADRAns must match the number of LinkADRReq
                     // commands.
                     num_adrreq += 1;
+                    if num_adrreq == 1 {
+                        // Each block starts from the channel mask currently in force, so that
+                        // a rejected block leaves no trace in a later block of the same frame.
+                        channel_mask = region.channel_mask_get();
+                    }
 
                     // A ChMaskCntl value that is RFU in this region rejects the whole block
                     if region
